@@ -254,8 +254,6 @@ pub(crate) enum WriteOp<K, V> {
     Upsert {
         key_hash: KeyHash<K>,
         value_entry: TrioArc<ValueEntry<K, V>>,
-        old_weight: u32,
-        new_weight: u32,
     },
     Remove(KvEntry<K, V>),
 }
